@@ -235,7 +235,7 @@ def run(ctx):
         arg = u.args[0]
         ok = isinstance(arg, ast.Call) and (call_name(arg) or "").endswith("ChainMap") and len(arg.args) == 2 and norm(arg.args[1]) == f"{rec}._asdict()"
         ctx.check(ok, "R16.4", "rewrite:values", "values are not taken from ChainMap(new variables, record._asdict())", u, "ChainMap(local_dict, record._asdict())")
-    first = rw.body[0]
+    first = next((st for st in rw.body if not (isinstance(st, ast.Expr) and isinstance(st.value, ast.Constant) and isinstance(st.value.value, str))), rw.body[0])
     from ..logic import equivalent, parse
 
     ident = isinstance(first, ast.If) and isinstance(first.body[-1], ast.Return) and norm(first.body[-1].value) == rec and \
